@@ -325,6 +325,9 @@ func (p *exeParser) readVarDef() (vd *VarDef, err error) {
 	if vd.Type, err = p.readType(); err != nil {
 		return nil, err
 	}
+	if vd.Type == nil {
+		return nil, parseError(p.line, p.col, "variable type missing")
+	}
 	if b, err = p.skipSpace(); err != nil {
 		return nil, err
 	}
